@@ -253,10 +253,10 @@ func (c cfgM) digest() string {
 }
 
 type state struct {
-	refs    map[string]string   // name -> "h:<hex>" | "s:<target>"
-	objs    map[int]bool        // object index -> stored
-	index   []string            // sorted "name|hash|mode|size"
-	shallow []string            // hex, in order
+	refs    map[string]string // name -> "h:<hex>" | "s:<target>"
+	objs    map[int]bool      // object index -> stored
+	index   []string          // sorted "name|hash|mode|size"
+	shallow []string          // hex, in order
 	cfg     cfgM
 	reflog  map[string][]string // name -> entries
 }
@@ -1040,8 +1040,10 @@ func (r *run) step(i int, op Op) {
 		var old *plumbing.Reference
 		mode := mod(op.C, 4)
 		stale := func() *plumbing.Reference {
+			// differs from the view's value and from the (possibly hidden) base value
+			bv, inBase := r.baseM.refs[name]
 			for k := 0; k < nObjPool; k++ {
-				if !has || objHash(k) != hashOfVal(cur) {
+				if (!has || objHash(k) != hashOfVal(cur)) && (!inBase || objHash(k) != hashOfVal(bv)) {
 					return plumbing.NewHashReference(rn, objHash(k))
 				}
 			}
@@ -1766,9 +1768,9 @@ func TestCheck(t *testing.T) {
 			"CheckAndSetReference on a never-existing name is not judged; on a name hidden by a pending deletion it must answer what the storage itself answers for a never-existing name",
 			"CountLooseRefs and duplicate objects in IterEncodedObjects are counted as probes, not judged",
 		},
-		Real: []string{"storage/transactional (all of it)", "storage/memory", "storage/filesystem + dotgit (base)", "plumbing/format/index, config, reflog encoders"},
-		Stub: []string{"disk (simfs) with one fault ordinal during Commit"},
-		Runs: map[string]int{"quick": 40000, "thorough": 400000},
+		Real:    []string{"storage/transactional (all of it)", "storage/memory", "storage/filesystem + dotgit (base)", "plumbing/format/index, config, reflog encoders"},
+		Stub:    []string{"disk (simfs) with one fault ordinal during Commit"},
+		Runs:    map[string]int{"quick": 40000, "thorough": 400000},
 		NewPlan: func() any { return &Plan{} },
 		Gen:     genPlan,
 		Exec:    execPlan,
